@@ -1,7 +1,9 @@
 package httpserver
 
 import (
+	stdcontext "context"
 	"errors"
+	"time"
 	"github.com/megaease/easegress/pkg/util/ipfilter"
 	"github.com/megaease/easegress/pkg/util/limitlistener"
 	"github.com/megaease/easegress/pkg/util/sem"
@@ -109,6 +111,52 @@ var (
 func vStartServer(r *runtime) { vStartedWith = r.spec; vStarts++ }
 func vCloseServer(r *runtime) { vCloses++ }
 
+// net/http contract: (*Server).SetKeepAlivesEnabled(false) closes every idle keep-alive
+// connection of the server (established connections of clients between two requests).
+var vKeepAlivesSwitchedOff int
+
+func vSetKeepAlives(s *http.Server, v bool) {
+	if !v {
+		vKeepAlivesSwitchedOff++
+	}
+}
+
+// net/http contract: Shutdown stops accepting and waits for the requests in flight until its
+// context ends; when it gives up (error) the connections in flight are LEFT RUNNING. Close
+// closes every connection at once, whatever it is doing.
+var (
+	vShutdowns    int
+	vSrvCloses    int
+	vStillRunning bool // requests of the old generation outlive Shutdown's patience
+)
+
+func vShutdown(s *http.Server, ctx stdcontext.Context) error {
+	vShutdowns++
+	if vStillRunning {
+		return stdcontext.DeadlineExceeded
+	}
+	return nil
+}
+func vSrvClose(s *http.Server) error { vSrvCloses++; return nil }
+func vCtxWithTimeout(ctx stdcontext.Context, d time.Duration) (stdcontext.Context, stdcontext.CancelFunc) {
+	return ctx, func() {}
+}
+
+// verifC11_CloseServerGraceful: the old generation's HTTP/1-2 listener is shut down gracefully -
+// whether or not its requests in flight finish within Shutdown's patience, no connection is
+// closed under a request ("a request that already holds the old generation completes").
+func verifC11_CloseServerGraceful() {
+	vShutdowns, vSrvCloses = 0, 0
+	vStillRunning = verifBool("requests-in-flight-outlive-the-shutdown-patience")
+	r := &runtime{server: &http.Server{}, superSpec: vSuper(&Spec{Port: 8080})}
+	r.closeServer()
+	verifAssert(vShutdowns == 1, "old-listener-is-shut-down-gracefully")
+	verifAssert(vSrvCloses == 0, "no-connection-is-closed-under-a-request-in-flight")
+	if vStillRunning {
+		verifCover("slow-request-in-flight")
+	}
+}
+
 // verifC11_RuntimeReload: after an update has been applied the server runs on ONE generation:
 // the rules (mux) and the listener options (port, TLS, keep-alive) both come from the new
 // spec; the listener is restarted exactly when a listener option changed.
@@ -128,7 +176,7 @@ func verifC11_RuntimeReload() {
 		Rules: []*Rule{{Paths: []*Path{{PathPrefix: "/", Backend: "new"}}}}}
 	restart := false
 	wantMax := uint32(10)
-	switch verifChoose("changedOption", 5) {
+	switch verifChoose("changedOption", 6) {
 	case 0: // rules only
 	case 1:
 		newSpec.Port = 9090
@@ -142,7 +190,13 @@ func verifC11_RuntimeReload() {
 	case 4:
 		newSpec.MaxConnections = 20 // applied to the running listener, no restart
 		wantMax = 20
+	case 5:
+		newSpec.MaxConnections = 5 // lowered at run time
+		wantMax = 5
 	}
+	// the server the (replaced) startServer would have made
+	r.server = &http.Server{}
+	vKeepAlivesSwitchedOff = 0
 	r.reload(vSuper(newSpec), mapper)
 	verifAssert(r.spec == newSpec, "runtime-holds-the-new-spec")
 	if restart {
@@ -171,6 +225,12 @@ func verifC11_RuntimeReload() {
 		verifAssert(verifGetField(sm, "realCapacity").(int64) == int64(wantMax), "running-listener-gets-the-new-maxConnections")
 		if wantMax == 20 {
 			verifCover("maxConnections-changed-at-run-time")
+		}
+		// ... and no established connection is dropped on the way (idle keep-alive
+		// connections are established connections)
+		verifAssert(vKeepAlivesSwitchedOff == 0, "run-time-change-closes-no-established-connection")
+		if wantMax == 5 {
+			verifCover("maxConnections-lowered-at-run-time")
 		}
 	}
 }
